@@ -18,6 +18,6 @@ Requirements for the change:
 1. It is a plausible bug a maintainer could introduce (off-by-one, dropped guard or reset, wrong comparison, state not restored on one path, check-then-act reordering, stale cached value, cursor advanced too early, two sites that each look fine alone...). Not sabotage: no `if (magic input)` special cases, no deleting the feature, no random behaviour.
 2. It needs something SPECIFIC to manifest - a particular multi-step sequence of operations, a particular combination of inputs, a particular interleaving or fault point, an unusual but legal value - so that ordinary use and the existing tests do not expose it at once. {hint}
 3. The project still builds and its existing tests still pass with the change. Build and run them in your worktree: `cd {wt} && cmake -G Ninja -B _build -S . >/dev/null && (cmake --build _build -- -k 0 >/dev/null 2>&1; true) && ctest --test-dir _build -j4 2>&1 | tail -3` (some gtest-dependent targets fail to build in this sandbox - that is expected and the same without your change; every ctest entry that exists must pass). Other agents share this machine: use -j4 and be patient.
-4. You demonstrate the breakage with a small self-contained program or test (C++ file with its own main(), compiled against the worktree's sources - e.g. compile `src/CppUTest/*.cpp src/CppUTestExt/*.cpp src/Platforms/Gcc/UtestPlatform.cpp` with `-Iinclude -I_build -DHAVE_CONFIG_H` plus your demo; or link against `_build/src/CppUTest/libCppUTest.a` and `_build/src/CppUTestExt/libCppUTestExt.a`) that FAILS (non-zero exit / visibly wrong output) with your change and PASSES without it (check with `git stash` or a second build). State the exact commands.
+4. You demonstrate the breakage with a small self-contained program or test (C++ file with its own main(), compiled against the worktree's sources - e.g. compile `src/CppUTest/*.cpp src/CppUTestExt/*.cpp src/Platforms/Gcc/UtestPlatform.cpp` with `-Iinclude -I_build -DHAVE_CONFIG_H` plus your demo; or link against `_build/src/CppUTest/libCppUTest.a` and `_build/src/CppUTestExt/libCppUTestExt.a`) that FAILS (non-zero exit / visibly wrong output) with your change and PASSES without it (NEVER use `git stash`: the stash is shared between all worktrees of this repository and other agents work in parallel; to get the baseline use `git diff -- src include > /tmp/p-$$.diff && git apply -R /tmp/p-$$.diff` ... rebuild ... `git apply /tmp/p-$$.diff`, or compile the baseline sources from `git show HEAD:<file>`). State the exact commands.
 
 Deliverables, all inside {wt}/SEED/ : `patch.diff` (output of `git -C {wt} diff -- src include`, the change only), `demo.cpp` (or demo.c), `README.md` with: what the change is and why it breaks the property (2-5 lines), what specific circumstances it needs to manifest, the exact build/run commands for the demonstration and their observed output with and without the change, and the ctest summary line with the change applied. Leave the worktree in place (the coordinator removes it). Your final message: under 15 lines - file changed, one-line description, what it needs to manifest, demo result with/without, ctest result.""")
